@@ -115,6 +115,9 @@ func (poc *PolicySorter) OnUpdate(update api.Update) (dirty bool) {
 				poc.sortedTiers.Delete(oldKey)
 				tierInfo.Valid = false
 				tierInfo.Order = nil
+				// The tier no longer exists: forget its default action too, otherwise policies that
+				// still name the tier are emitted with the deleted tier's stale default action.
+				tierInfo.DefaultAction = ""
 				if len(tierInfo.Policies) == 0 {
 					delete(poc.tiers, tierName)
 				} else {
